@@ -24,7 +24,7 @@ LEVEL_TEXT = ("All cold-start runs with 1 <= steps <= 9 (thorough 22), 1 <= peri
 LEVEL_NOTE = "Exhaustive only within the stated bounds (evidence sets exhaustive: true); durations are whole numbers of steps as the property's quantifier (number of steps) states."
 RULE = ("case = (steps, period, layout, particle variables, direction); inside a case every numrec value is run and compared with the unsplit run. "
         "Non-trivial: steps % period != 0 or the records do not fill the last file; distinct by the tuple.")
-MANDATORY = ["start_time_not_a_multiple_of_the_output_period", "integer_particle_variable_in_output", "reference_time_decades_before_the_run", "lonlat_in_output_and_empty_state_output_time", "steps_not_multiple_of_period", "last_file_partial", "last_file_full", "single_record_run", "sparse", "dense", "reversed", "forward", "split_vs_unsplit_records", "output_times_with_empty_state", "prototype_with_number", "ncargs_data_model_given"]
+MANDATORY = ["output_period_of_a_day_or_more_as_ISO_8601_string", "start_time_not_a_multiple_of_the_output_period", "integer_particle_variable_in_output", "reference_time_decades_before_the_run", "lonlat_in_output_and_empty_state_output_time", "steps_not_multiple_of_period", "last_file_partial", "last_file_full", "single_record_run", "sparse", "dense", "reversed", "forward", "split_vs_unsplit_records", "output_times_with_empty_state", "prototype_with_number", "ncargs_data_model_given"]
 EXHAUSTIVE = {"quick": True, "thorough": True}
 ASSUMPTIONS = ["cold start only (warm start is C08)"]
 TIMEOUT = {"quick": 900, "thorough": 3400}
@@ -65,6 +65,9 @@ def expected_names(numrec: int, nrec: int, proto: str = "out.nc") -> list[str]:
 def run_case(case: dict[str, Any], wd: Path) -> dict[str, Any]:
     ns, P, rev = case["nsteps"], case["period"], case["reversed"]
     dt = 600
+    long_iso = bool((ns + P) % 4 == 3)
+    if long_iso:
+        dt = 43200  # half-day steps: the output period is a day or more for P >= 2 and is written as an ISO 8601 period (PT36H ...)
     sgn = -1 if rev else 1
     V: list = []
     sit: dict[str, int] = {}
@@ -94,7 +97,8 @@ def run_case(case: dict[str, Any], wd: Path) -> dict[str, Any]:
     sit["start_time_not_a_multiple_of_the_output_period"] = int(offset % (P * dt) != 0)
     int_pvar = bool(case["pvars"] and (ns + P) % 2 == 0)
     sit["integer_particle_variable_in_output"] = int(int_pvar)
-    base = dict(start_offset=offset, int_pvar=int_pvar, salt=ns * 100 + P, dt=dt, filename=proto, ncargs=ncargs, nsteps=ns, period=P, layout=case["layout"], reversed=rev, reference=reference,
+    sit["output_period_of_a_day_or_more_as_ISO_8601_string"] = int(long_iso and P * dt >= 86400)
+    base = dict(period_iso=long_iso, start_offset=offset, int_pvar=int_pvar, salt=ns * 100 + P, dt=dt, filename=proto, ncargs=ncargs, nsteps=ns, period=P, layout=case["layout"], reversed=rev, reference=reference,
                 releases=rels, kills=kills_, pvars=case["pvars"],
                 lonlat=bool((ns + 2 * P) % 4 == 1), enc="f8", speed=0.07, continuous=0)
     sit["lonlat_in_output"] = int(base["lonlat"])
